@@ -129,7 +129,8 @@ MUTANTS: List[Tuple[str, List[Tuple[str, str, str]], List[Tuple[str, str]]]] = [
     ('f25-case-filter-by-truthiness', [(M, "            return EdgeField.case_branch not in self.dag.graph.edges[u, v]\n", "            return not self.dag.graph.edges[u, v].get(EdgeField.case_branch)\n")], [('C09', 'SW-1')]),
     ('f26-unhashable-label-unhandled', [(M, "        try:\n            has_branch = selected_branch_label in branch_nodes\n        except TypeError:\n            # An unhashable label cannot match any case\n            has_branch = False\n", "        has_branch = selected_branch_label in branch_nodes\n")], [('C05', 'ER-5'), ('C09', 'ER-5')]),
     ('f23-additional-data-kept', [(M, "        self._additional_data.pop(start_from_node_id, None)\n", "        pass\n")], [('C11', 'RC-8')]),
-    ('f24-forced-default-inside-retry', [(M, "        n_attempts = 1\n        while True:\n            try:\n                logger.debug('Start execution node_id=%s', node_id)", "        n_attempts = 1\n        while True:\n            try:\n                if force_default:\n                    return run_node_default(node, **kwargs)\n                logger.debug('Start execution node_id=%s', node_id)")], [('C12', 'RT-7')]),
+    ('f24-forced-default-inside-retry', [(M, "        if force_default:\n            # The default value is not an attempt of the node: it is neither retried nor replaced by itself\n            return run_node_default(node, **kwargs)\n\n        retry_policy = self.dag.retry_policy(node=node)\n", "        retry_policy = self.dag.retry_policy(node=node)\n"),
+                                         (M, "        n_attempts = 1\n        while True:\n            try:\n                logger.debug('Start execution node_id=%s', node_id)", "        n_attempts = 1\n        while True:\n            try:\n                if force_default:\n                    return run_node_default(node, **kwargs)\n                logger.debug('Start execution node_id=%s', node_id)")], [('C12', 'RT-7')]),
     ('f27-retry-catches-cancellation', [(M, "                if not isinstance(error, Exception):\n", "                if False:\n")], [('C12', 'RT-2'), ('C13', 'RT-2')]),
     ('f38-stopiteration-through-executor', [(N, "functools.partial(_run_in_executor, run_method, *args, **kwargs),", "functools.partial(run_method, *args, **kwargs),")], [('C02', 'EX-6')]),
     ('ex5-wrapper-drops-kwargs', [(N, "        return run_method(*args, **kwargs)\n    except StopIteration as ex:", "        return run_method(*args)\n    except StopIteration as ex:")], [('C17', 'EX-5')]),
@@ -297,6 +298,36 @@ MUTANTS: List[Tuple[str, List[Tuple[str, str, str]], List[Tuple[str, str]]]] = [
      [('C15', 'BD-7')]),
     ('sw6-manager-reads-another-flag', [(M, "            return self.dag.graph.nodes[node_id].get(NodeField.is_switch) is True", "            return self.dag.graph.nodes[node_id].get('switch') is True")],
      [('C09', 'SW-6'), ('C15', 'SW-6')]),
+    # ---- round 9 of seeded changes / refactoring round 7 (DESIGN 9.21, 9.22)
+    ('cc13-ready-probe-waits-for-a-worker', [(TH, "            raise RuntimeError('Исполнение невозможно без указания пула потоков')\n", "            raise RuntimeError('Исполнение невозможно без указания пула потоков')\n\n        self._pool_executor.submit(int).result()\n")],
+     [('C06', 'CC-13'), ('C17', 'CC-13')]),
+    ('cc13-sleep-before-dispatch', [(N, "import asyncio\n", "import asyncio\nimport time\n"), (N, "        result = await loop.run_in_executor(", "        time.sleep(0.001)\n        result = await loop.run_in_executor(")],
+     [('C06', 'CC-13')]),
+    ('ex14-hand-made-bridge', [(N, "        result = await loop.run_in_executor(\n            executor,\n            functools.partial(_run_in_executor, run_method, *args, **kwargs),\n        )\n",
+                                "        job = executor.submit(functools.partial(_run_in_executor, run_method, *args, **kwargs))\n        waiter = loop.create_future()\n        job.add_done_callback(lambda j: loop.call_soon_threadsafe(waiter.set_result, j.result()))\n        result = await waiter\n")],
+     [('C13', 'EX-14')]),
+    ('sw7-decider-registered-as-a-case', [(M, "                selected_branch_label = self._node_storage.get_node_result(pred_id)\n                continue\n", "                selected_branch_label = self._node_storage.get_node_result(pred_id)\n")],
+     [('C09', 'SW-7')]),
+    ('sw7-unknown-label-takes-the-last-case', [(M, "        if not has_branch:\n            raise SwitchCaseDoesNotHaveBranchError(\n                f'The switch {switch_node_id} does not have a branch for the label {selected_branch_label!r}',\n            )\n",
+                                                 "        if not has_branch:\n            selected_branch_label = next(reversed(branch_nodes))\n")],
+     [('C09', 'SW-7')]),
+    ('vl4-additional-data-of-the-generic-class', [(B, "            if 'additional_data' not in method.__annotations__:\n",
+                                                     "            generic = getattr(self._node_map[source], '__generic_class__', None)\n            if 'additional_data' not in method.__annotations__ and (\n                generic is None or 'additional_data' not in get_callable_run_method(generic).__annotations__\n            ):\n")],
+     [('C16', 'VL-4')]),
+    ('rc4-oneof-before-default', [(M, "            if isinstance(node_result, Recurrent) and node.use_default:\n                logger.debug(\n                    'Attempts to run a recurrent subgraph have been exceeded. '",
+                                      "            if isinstance(node_result, Recurrent) and node.use_default and not dag.is_oneof:\n                logger.debug(\n                    'Attempts to run a recurrent subgraph have been exceeded. '")],
+     [('C11', 'RC-4')]),
+    ('vw7-link-is-a-path-object', [(V, "            return f'{file_path}.py'\n", "            return pathlib.PurePosixPath(f'{file_path}.py')\n")],
+     [('C20', 'VW-7')]),
+    ('er12-verdict-read-after-cancelling-the-helpers', [(M, "            return self._get_dag_result()\n        except Exception as ex:", "            self._stop_coro_tasks(*self._coro_tasks)\n            await asyncio.sleep(0)\n            return self._get_dag_result()\n        except Exception as ex:")],
+     [('C05', 'ER-12')]),
+    ('ex5-typeerror-of-the-pool-is-retried', [(N, "        result = await loop.run_in_executor(\n            executor,\n            functools.partial(_run_in_executor, run_method, *args, **kwargs),\n        )\n",
+                                                "        try:\n            result = await loop.run_in_executor(\n                executor,\n                functools.partial(_run_in_executor, run_method, *args, **kwargs),\n            )\n        except TypeError:\n            result = await loop.run_in_executor(\n                executor,\n                functools.partial(_run_in_executor, run_method, *args, **kwargs),\n            )\n")],
+     [('C04', 'EX-5'), ('C12', 'EX-5')]),
+    ('rt7-default-called-again-without-arguments', [(N, "    return get_instance(node).get_default(**kwargs)\n", "    instance = get_instance(node)\n    try:\n        return instance.get_default(**kwargs)\n    except TypeError:\n        return instance.get_default()\n")],
+     [('C12', 'RT-7')]),
+    ('lk1-oneof-task-not-registered', [(M, "        task = asyncio.create_task(coro, name=name)\n", "        task = asyncio.create_task(coro, name=name)\n        if name.startswith('oneof'):\n            return task\n")],
+     [('C14', 'LK-1'), ('C13', 'LK-1')]),
 ]
 
 ALL_PROPS = [f'C{n:02d}' for n in range(2, 21)]
@@ -377,6 +408,19 @@ BENIGN: List[Tuple[str, List[Tuple[str, str, str, bool]]]] = [
     ('rc12-case-dag-explicitly-not-recurrent', [(M, "                    (self._node_storage.get_switch_result(node_id)).node_id,\n                    is_oneof=dag.is_oneof,", "                    (self._node_storage.get_switch_result(node_id)).node_id,\n                    is_recurrent=False,\n                    is_oneof=dag.is_oneof,", False)]),
     ('as7-store-error-logged-and-reraised', [(CT, "        await self.artifact_store.save(node_id=node_id, data=data)", "        try:\n            await self.artifact_store.save(node_id=node_id, data=data)\n        except Exception:\n            import logging\n            logging.getLogger(__name__).debug('the artifact store refused %s', node_id)\n            raise", False)]),
     ('hidden-set-renamed', [(S, "_hidden_keys", "_concealed", True)]),
+    # ---- round 9
+    ('ex14-wrap-future-of-submit', [(N, "        result = await loop.run_in_executor(\n            executor,\n            functools.partial(_run_in_executor, run_method, *args, **kwargs),\n        )\n",
+                                     "        result = await asyncio.wrap_future(\n            executor.submit(functools.partial(_run_in_executor, run_method, *args, **kwargs)),\n            loop=loop,\n        )\n", False)]),
+    ('sw7-edges-read-with-data', [(M, "        for pred_id in self.dag.graph.predecessors(switch_node_id):\n            edge = self.dag.graph.edges[(pred_id, switch_node_id)]\n\n            if edge.get(EdgeField.is_switch):",
+                                      "        for pred_id, _, edge in self.dag.graph.in_edges(switch_node_id, data=True):\n            if edge.get(EdgeField.is_switch):", False)]),
+    ('cc13-probe-awaited', [(TH, "class PoolExecutorRegistry(BasePoolExecutorRegistry):\n", "class PoolExecutorRegistry(BasePoolExecutorRegistry):\n\n    async def probe(self) -> None:\n        import asyncio\n        await asyncio.wrap_future(self._pool_executor.submit(int))\n", False)]),
+    ('hidden-set-on-instance-via-helper', [(S, "        self._hidden_keys: set = set()\n", "        self._hidden_keys: set = self._no_keys()\n\n    @staticmethod\n    def _no_keys() -> set:\n        return set()\n", False)]),
+    ('er12-verdict-kept-in-a-local-then-cancel', [(M, "            return self._get_dag_result()\n        except Exception as ex:", "            result = self._get_dag_result()\n            self._stop_coro_tasks(*self._coro_tasks)\n            return result\n        except Exception as ex:", False)]),
+    ('ev-event-name-as-module-constant', [(E, "class EventSourceMixin:", "_ON_NODE_START = 'on_node_start'\n\n\nclass EventSourceMixin:", False),
+                                          (E, "await self._emit('on_node_start', node_id=node_id)", "await self._emit(_ON_NODE_START, node_id=node_id)", False)]),
+    ('ex5-pool-hand-over-in-a-helper', [(N, "        result = await loop.run_in_executor(\n            executor,\n            functools.partial(_run_in_executor, run_method, *args, **kwargs),\n        )\n",
+                                         "        result = await _hand_over(loop, executor, run_method, args, kwargs)\n", False),
+                                        (N, "async def run_node(", "def _hand_over(loop, executor, run_method, args, kwargs):  # noqa: ANN001, ANN202\n    return loop.run_in_executor(executor, functools.partial(_run_in_executor, run_method, *args, **kwargs))\n\n\nasync def run_node(", False)]),
 ]
 
 
@@ -451,9 +495,9 @@ REPAIRS: List[Tuple[str, List[Tuple[str, str, str]], List[Tuple[str, str, str]]]
     ('repair-ev7-complete-on-every-exit', [(C, "        except Exception as ex:\n            result = PipelineResult(pipeline_id=pipeline_id, value=None, error=ex)\n            await ctx.emit_on_pipeline_complete(result=result)\n\n            return result",
                                             "        except Exception as ex:\n            result = PipelineResult(pipeline_id=pipeline_id, value=None, error=ex)\n            await ctx.emit_on_pipeline_complete(result=result)\n\n            return result\n\n        except BaseException as ex:\n            await ctx.emit_on_pipeline_complete(result=PipelineResult(pipeline_id=pipeline_id, value=None, error=ex))\n            raise")],
      [('C14', 'EV-7', 'complete on every exit')]),
-    ('repair-fs8-exclusive-atomic-save', [(F, "        mode, encoding = ('wb', None) if serializer.is_binary else ('w', 'utf-8')\n\n        path = Path(self._ensure_dir() / f'{node_id}.{fmt.value}')\n",
-                                           "        mode, encoding = ('xb', None) if serializer.is_binary else ('x', 'utf-8')\n\n        final_path = Path(self._ensure_dir() / f'{node_id}.{fmt.value}')\n        path = final_path.with_name(final_path.name + '.tmp')\n"),
-                                          (F, "            path.unlink(missing_ok=True)\n            raise\n", "            path.unlink(missing_ok=True)\n            raise\n\n        path.link_to(final_path) if hasattr(path, 'link_to') else path.rename(final_path)\n")],
+    ('repair-fs8-exclusive-atomic-save', [(F, "import functools\n", "import functools\nimport os\n"), (F, "        mode, encoding = ('wb', None) if serializer.is_binary else ('w', 'utf-8')\n\n        path = Path(self._ensure_dir() / f'{node_id}.{fmt.value}')\n",
+                                           "        mode, encoding = ('wb', None) if serializer.is_binary else ('w', 'utf-8')\n\n        final_path = Path(self._ensure_dir() / f'{node_id}.{fmt.value}')\n        path = final_path.with_name(final_path.name + '.tmp')\n"),
+                                          (F, "            path.unlink(missing_ok=True)\n            raise\n", "            path.unlink(missing_ok=True)\n            raise\n\n        try:\n            os.link(path, final_path)\n        finally:\n            path.unlink(missing_ok=True)\n")],
      [('C18', 'FS-8', 'exclusive create'), ('C18', 'FS-8', 'atomic publish')]),
     ('repair-bn5-default-wrapper', [(N, "            '__generic_class__': node,\n", "            '__generic_class__': node,\n            'get_default': lambda self, **kwargs: node.get_default(self, **kwargs, **(dependencies_default or {})),\n")],
      [('C12', 'BN-5', 'default kwargs')]),
